@@ -30,6 +30,21 @@ pub fn render_program(stmts: &[Stmt]) -> String {
     stmts.iter().map(render_stmt).collect::<Vec<_>>().join("\n") + "\n"
 }
 
+/// the same program with comments of every kind (odd spellings of block comments included) and blank lines between the
+/// statements: the meaning is unchanged
+pub fn render_program_decorated(rng: &mut Rng, stmts: &[Stmt]) -> String {
+    let extras: [&str; 14] = ["# note", "// note; x = 1;", "/* block */", "/** doc **/", "/**/", "/***/", "/* ** */", "/* a\n   b */", "", "   ",
+        "# caf\u{e9}", "/* \u{3b1} * / */", "//", "#"];
+    let mut out = String::new();
+    for s in stmts {
+        if rng.chance(1, 2) { out.push_str(*rng.pick(&extras[..])); out.push('\n'); }
+        out.push_str(&render_stmt(s));
+        if rng.chance(1, 4) { out.push(' '); out.push_str(*rng.pick(&["# tail", "// tail", "/* tail */", "/** tail **/"][..])); }
+        out.push('\n');
+    }
+    out
+}
+
 #[derive(Clone, Copy, PartialEq, Eq, Debug)]
 pub enum Profile { Dag, Banks, RegFile, Memory, Status }
 
